@@ -340,6 +340,13 @@ def gen_edited(rng, tier):
             if others:
                 new.append([list(x), list(others.pop())])
         e = copy.deepcopy(d)
+        if rng.random() < 0.4:
+            # the structure is REMOVED (its neighbours lose the pins that faced it) and stays out
+            e["edit"] = {"remove": i, "new": []}
+            e["final_conns"] = final_conns
+            e["final_expo"] = [x for x in d["expo"] if x[0] != i]
+            e["final_order"] = [j for j in d["order"] if j != i]
+            return e
         e["edit"] = {"cut": i, "new": new}
         e["final_conns"] = final_conns + new
         newused = {tuple(x) for c in new for x in c}
@@ -359,9 +366,12 @@ class EditedSplit(SplitStream):
         final = {"comps": d["comps"], "conns": d["final_conns"], "expo": d["final_expo"]}
         try:
             sol, sts = build_ordered(d)
-            i = d["edit"]["cut"]
-            sol.cut_structure(sts[i])
-            sol.add_structure(sts[i])
+            if "remove" in d["edit"]:
+                sol.remove_structure(sts[d["edit"]["remove"]])
+            else:
+                i = d["edit"]["cut"]
+                sol.cut_structure(sts[i])
+                sol.add_structure(sts[i])
             for a, b in d["edit"]["new"]:
                 sol.connect(sts[a[0]], Pin(f"p{a[1]}"), sts[b[0]], Pin(f"p{b[1]}"))
             ids = {id(st): j for j, st in sts.items()}
